@@ -272,7 +272,10 @@ Lemma digits_eq x :
   b128_digits x =
   let '(w, eb, eout) := enc_state x in
   rev (if negb (N.eqb w 1) then eb :: eout else eout).
-Proof. reflexivity. Qed.
+Proof.
+  unfold b128_digits. change (fold_left b128_step x (1, 0, [])) with (enc_state x).
+  destruct (enc_state x) as [[w eb] eout]. symmetry. apply rev_alt.
+Qed.
 
 Lemma digits_length x : length (b128_digits x) = ((8 * length x + 6) / 7)%nat.
 Proof.
@@ -328,7 +331,7 @@ Proof.
   intros Hwf. destruct (digits_spec x Hwf) as (Hall & w & db & Hdec).
   unfold b128_decode, b128_encode. rewrite unescape_escape by exact Hall.
   unfold luci_decode. rewrite digits_length, luci_len_ok. cbn [negb].
-  fold dec_init. rewrite Hdec. rewrite rev_involutive. reflexivity.
+  fold dec_init. rewrite Hdec. rewrite <- rev_alt, rev_involutive. reflexivity.
 Qed.
 
 Lemma b128_alphabet x : wf_bytes x -> Forall (fun b => dns_safeb b = true) (b128_encode x).
